@@ -42,6 +42,8 @@ var crlfSinks = map[string][]int{
 	"(*github.com/valyala/fasthttp.ResponseHeader).AddBytesK":               {1, 2},
 	"(*github.com/valyala/fasthttp.ResponseHeader).AddBytesV":               {1, 2},
 	"(*github.com/valyala/fasthttp.ResponseHeader).AddBytesKV":              {1, 2},
+	"(*github.com/valyala/fasthttp.ResponseHeader).DelClientCookie":         {1},
+	"(*github.com/valyala/fasthttp.ResponseHeader).DelClientCookieBytes":    {1},
 	"(*github.com/valyala/fasthttp.ResponseHeader).SetStatusMessage":        {1},
 	"(*github.com/valyala/fasthttp.ResponseHeader).SetProtocol":             {1},
 }
@@ -335,6 +337,64 @@ func runC07(r *Run) {
 		})
 		r.atLeast("CR/LF-preserving setter call sites in package fiber", n, 12)
 		r.Extra["tainted_fields"] = te.fieldList()
+		// a decoder behind the cleaner: fasthttp's Cookie.SetPath percent-decodes what it is given, so sanitising the
+		// argument is not enough — the cookie may only be written once the *decoded* path was found free of CR and LF
+		np := 0
+		r.P.AllFuncs("", func(f *ssa.Function) {
+			setPaths := callsMatching(f, false, nameIs("(*github.com/valyala/fasthttp.Cookie).SetPath", "(*github.com/valyala/fasthttp.Cookie).SetPathBytes"))
+			if len(setPaths) == 0 {
+				return
+			}
+			writes := callsMatching(f, false, nameIs("(*github.com/valyala/fasthttp.ResponseHeader).SetCookie"))
+			if len(writes) == 0 {
+				return
+			}
+			// edges on which the decoded path is known to hold no CR resp. no LF
+			clean := map[byte]map[edge]bool{'\r': {}, '\n': {}}
+			for _, c := range callsMatching(f, false, nameIs("bytes.IndexByte", "strings.IndexByte")) {
+				k, isC := constInt(asConst(c.Common.Args[1]))
+				if !isC || (k != '\r' && k != '\n') {
+					continue
+				}
+				if dependsOn(c.Common.Args[0], func(v ssa.Value) bool {
+					cc, ok := v.(*ssa.Call)
+					return ok && calleeName(&cc.Call) == "(*github.com/valyala/fasthttp.Cookie).Path"
+				}) == nil {
+					continue
+				}
+				for _, br := range ifsOnValue(f, c.Value()) {
+					// `idx >= 0` false edge / `idx == -1` true edge / `idx < 0` true edge
+					switch br.Info.Op {
+					case token.GEQ:
+						clean[byte(k)][edge{br.If.Block(), br.slotWhenRel(false)}] = true
+					case token.LSS:
+						clean[byte(k)][edge{br.If.Block(), br.slotWhenRel(true)}] = true
+					default:
+						if sl, ok := br.eqIntSlot(-1, true); ok {
+							clean[byte(k)][edge{br.If.Block(), sl}] = true
+						}
+					}
+				}
+			}
+			for _, sp := range setPaths {
+				np++
+				okP := true
+				for _, ch := range []byte{'\r', '\n'} {
+					if len(clean[ch]) == 0 {
+						okP = false
+						continue
+					}
+					for _, w := range writes {
+						if _, hit := reach(pointAfter(sp.Instr), func(in ssa.Instruction) bool { return in == w.Instr }, clean[ch], nil); hit != nil {
+							okP = false
+						}
+					}
+				}
+				r.check(okP, fmt.Sprintf("%s:Cookie.SetPath#%d:decoded-path-checked", f.Name(), np), r.pos(sp.Instr), "the cookie is written only after the decoded path was found free of CR and LF",
+					"fasthttp percent-decodes the path handed to Cookie.SetPath, and the cookie is written without looking at the decoded path: a Path such as /a%0d%0aX-Inj:%20y passes the sanitiser and comes out of the decoder as a line break — the value adds a header line")
+			}
+		})
+		r.atLeast("Cookie.SetPath call sites", np, 1)
 	})
 
 	r.rule("R3", "no allocation sized by a decoded length without a dominating bound, in code reachable from flash parsing (E9)", func() { boundedFlashDecode(r) })
